@@ -117,7 +117,7 @@ f([m1, k, m2, \"é\", m3]);
     // many files with several documents each (html, script, style - every one with an accepted fix): the walker threads
     // send the documents of different files to the printer interleaved, and every file must still get all its edits
     Case { id: "scan-html-many".into(),
-           files: (0..36).map(|i| (format!("w/p{i}.html"), format!("<html><body><p><b>hello {i}</b></p>\n<style>\na {{ color: red }}\n</style>\n<script>\nfoo({i});\n</script>\n<b>é {i}</b></body></html>\n"))).collect(),
+           files: (0..160).map(|i| (format!("w/d{}/p{i}.html", i % 7), format!("<html><body><p><b>hello {i}</b></p>\n<style>\na {{ color: red }}\n</style>\n<script>\nfoo({i});\n</script>\n<b>é {i}</b></body></html>\n"))).collect(),
            rules: vec![r1.clone(), r4.clone(), r5.clone()], stmt_mode: false },
     Case { id: "scan-no-match".into(), files: vec![("n.js".into(), "keep();\n".into())], rules: vec![r1], stmt_mode: false },
   ]
